@@ -383,6 +383,21 @@ func GenerateInterface(p Printer, msg *protogen.Message) {
 	}
 }
 
+// tsPropertyName returns name as a TypeScript property name: identifiers as they are, anything else
+// (e.g. the discriminator "@type") as a quoted string.
+func tsPropertyName(name string) string {
+	for i, r := range name {
+		letter := r == '_' || r == '$' || (r >= 'a' && r <= 'z') || (r >= 'A' && r <= 'Z')
+		if !letter && (i == 0 || r < '0' || r > '9') {
+			return strconv.Quote(name)
+		}
+	}
+	if name == "" {
+		return strconv.Quote(name)
+	}
+	return name
+}
+
 // GenerateOneofDiscriminatedUnionType generates a TypeScript discriminated union type for a oneof.
 func GenerateOneofDiscriminatedUnionType(p Printer, msgName string, info *annotations.OneofDiscriminatorInfo) {
 	unionName := msgName + SnakeToUpperCamel(string(info.Oneof.Desc.Name()))
@@ -393,7 +408,7 @@ func GenerateOneofDiscriminatedUnionType(p Printer, msgName string, info *annota
 		switch {
 		case info.Flatten && variant.IsMessage:
 			// Flattened: { discriminator: "value", ...variant fields }
-			branch = fmt.Sprintf("{ %s: %s", info.Discriminator, strconv.Quote(variant.DiscriminatorVal))
+			branch = fmt.Sprintf("{ %s: %s", tsPropertyName(info.Discriminator), strconv.Quote(variant.DiscriminatorVal))
 			var sb strings.Builder
 			for _, childField := range variant.Field.Message.Fields {
 				jsonName := childField.Desc.JSONName()
@@ -408,7 +423,7 @@ func GenerateOneofDiscriminatedUnionType(p Printer, msgName string, info *annota
 			msgType := string(variant.Field.Message.Desc.Name())
 			branch = fmt.Sprintf(
 				"{ %s: %s; %s?: %s }",
-				info.Discriminator,
+				tsPropertyName(info.Discriminator),
 				strconv.Quote(variant.DiscriminatorVal),
 				fieldJSONName,
 				msgType,
@@ -419,7 +434,7 @@ func GenerateOneofDiscriminatedUnionType(p Printer, msgName string, info *annota
 			tsType := TSScalarTypeForField(variant.Field)
 			branch = fmt.Sprintf(
 				"{ %s: %s; %s?: %s }",
-				info.Discriminator,
+				tsPropertyName(info.Discriminator),
 				strconv.Quote(variant.DiscriminatorVal),
 				fieldJSONName,
 				tsType,
